@@ -1,4 +1,5 @@
 import KafkaModel.Lemmas.Crc
+import KafkaModel.Lemmas.CrcOrder
 import KafkaModel.Props.C02
 /-!
   C04 — With CRC validation on, corrupted messages are rejected, never delivered.
@@ -216,6 +217,22 @@ theorem C04_burst32_bits_rejected (pre xs post : Bytes) (B a : Nat) (hB : B < 2 
   have : 0 < B * 2 ^ a := Nat.mul_pos hB0 (Nat.two_pow_pos a)
   omega
 
+/-- **every double-bit flip in two different covered bytes is detected** (field intact): bit `a` of the byte after `pre`,
+    bit `b` of the byte `m + 1` further on, anywhere in a message whose covered part is shorter than 2^32 - 1 bits (512 MiB;
+    beyond that distance the checksum provably cannot tell: the register's period is 2^32 - 1).  Two bits in one byte are
+    `C04_one_byte_altered`. -/
+theorem C04_double_bit_altered (pre xs post : Bytes) (a b m : Nat) (ha : a < 8) (hb : b < 8) (hlen : xs.length = m + 2)
+    (hspan : (m + 2) * 8 ≤ 4294967295) :
+    wrapI 4 ((crc32 (pre ++ xorOnto xs (UInt8.ofNat (2 ^ a) :: (List.replicate m 0 ++ [UInt8.ofNat (2 ^ b)])) ++ post)).toNat : Int)
+      ≠ decI (crcField (pre ++ xs ++ post)) :=
+  crc_change_detected _ _ (CrcOrder.crc32_two_bits pre xs post a b m ha hb hlen hspan)
+
+theorem C04_double_bit_rejected (pre xs post : Bytes) (a b m : Nat) (ha : a < 8) (hb : b < 8) (hlen : xs.length = m + 2)
+    (hspan : (m + 2) * 8 ≤ 4294967295) :
+    protoMsg true (crcField (pre ++ xs ++ post) ++
+      (pre ++ xorOnto xs (UInt8.ofNat (2 ^ a) :: (List.replicate m 0 ++ [UInt8.ofNat (2 ^ b)])) ++ post)) = .error (.kafka 2) :=
+  C04_reject_message _ _ (crcField_len _) (C04_double_bit_altered pre xs post a b m ha hb hlen hspan)
+
 /-- put together: a message with one covered byte altered is rejected when validation is on -/
 theorem C04_single_byte_rejected (pre post : Bytes) (x y : UInt8) (hxy : x ≠ y) :
     protoMsg true (crcField (pre ++ x :: post) ++ (pre ++ y :: post)) = .error (.kafka 2) :=
@@ -227,5 +244,7 @@ example : (1 : UInt8) ≠ 3 := by decide
 -- a 32-bit burst starting at bit 3 of a byte: first and last bit set, over five bytes
 example : Burst32 (nle 5 ((2 ^ 31 + 1) * 2 ^ 3)) := burst32_of_bits _ 3 (by decide) (by decide)
 example : nle 5 ((2 ^ 31 + 1) * 2 ^ 3) = [8, 0, 0, 0, 4] := by decide
+-- two flipped bits 1000 bytes apart: bit 3 of one byte, bit 6 of the byte 1000 further on
+example : (998 + 2) * 8 ≤ 4294967295 := by decide
 
 end Kafka.Props.C04
